@@ -1,8 +1,8 @@
 (* C05 - STRICT accepts a subset of TOLERANT and enforces what validate() checks.
-   Proved here (for all trees, tables and texts): every STRICT-only branch of child admission at the
+   Proved here (for all trees, tables and texts): every STRICT-only branch of child acceptance at the
    three levels (Segment.add/_is_valid_child, Field.add, Component.add, ElementList._can_add_child
-   cardinality) and of textual leaf construction only REFUSES - whatever STRICT admits, TOLERANT
-   admits with the identical result.  The full simulation statement
+   cardinality) and of textual leaf construction only REFUSES - whatever STRICT accepts, TOLERANT
+   accepts with the identical result.  The full simulation statement
        parse_x STRICT a = Ok t -> exists t', parse_x TOLERANT a = Ok t' /\ erase_level t' = erase_level t
    additionally needs the constructors' STRICT branches (Tree.v) and the datatype layer (C13); until
    that proof is complete it is decided by the both-levels model differential and the oracle of
@@ -14,20 +14,20 @@ From HL7 Require Import Lib.Str Model.Ec Model.Result Model.Ref Model.Tree Model
 Import ListNotations.
 Open Scope bs_scope.
 
-Theorem C05_admission_subset_fields : forall t kids s s',
+Theorem C05_acceptance_subset_fields : forall t kids s s',
   add_fields t STRICT s kids = Ok s' -> add_fields t TOLERANT s kids = Ok s'.
 Proof. exact add_fields_subset. Qed.
-Print Assumptions C05_admission_subset_fields.
+Print Assumptions C05_acceptance_subset_fields.
 
-Theorem C05_admission_subset_components : forall t kids f f',
+Theorem C05_acceptance_subset_components : forall t kids f f',
   add_comps t STRICT f kids = Ok f' -> add_comps t TOLERANT f kids = Ok f'.
 Proof. exact add_comps_subset. Qed.
-Print Assumptions C05_admission_subset_components.
+Print Assumptions C05_acceptance_subset_components.
 
-Theorem C05_admission_subset_subcomponents : forall t kids c c',
+Theorem C05_acceptance_subset_subcomponents : forall t kids c c',
   add_subs t STRICT c kids = Ok c' -> add_subs t TOLERANT c kids = Ok c'.
 Proof. exact add_subs_subset. Qed.
-Print Assumptions C05_admission_subset_subcomponents.
+Print Assumptions C05_acceptance_subset_subcomponents.
 
 Theorem C05_textual_leaf_subset : forall v e dt s x,
   leaf_enc v STRICT e dt s = Ok x -> leaf_enc v TOLERANT e dt s = Ok x.
@@ -148,12 +148,12 @@ Print Assumptions C05_parse_segment_subset_full_leaf.
    (C05_strict_enforces_refuted: finding F14, and C05_strict_enforces_refuted_zsegment: a new
    finding); it holds under the side condition `strict_side`:
      - a segment that is not a Z-segment has no field beyond its table: every child is declared by the
-       segment's structure (an open-ended, varies-last segment admits SEG_k for every k under STRICT;
+       segment's structure (an open-ended, varies-last segment accepts SEG_k for every k under STRICT;
        the validator reports "Invalid children detected");
      - every field of a Z-segment is a Z-field: the segment test is name[0] == 'Z' and len == 3, the
        field test is ^z[a-z1-9]{2}_\d+$; 'Z0X|a' gives a plain varies field Z0X_1 that the validator
        does not find in the tables ("Invalid element found").
-   Proofs/StrictEnforces.v: what STRICT construction and STRICT admission guarantee of the tree is
+   Proofs/StrictEnforces.v: what STRICT construction and STRICT acceptance guarantee of the tree is
    what the validator checks besides the minimum cardinalities - datatype = the datatype of the
    reference (no WrongDatatype), no unknown child below a complex parent (no UnknownElement), every
    child declared and built under the reference the validator holds against it (no InvalidChildren /
